@@ -66,6 +66,14 @@ def run(prog, tier):
                     for el_ in (t_.elts if isinstance(t_, ast.Tuple) else [t_]):
                         if isinstance(el_, ast.Attribute) and U(el_) in ("self.walker_positions", "self.walker_probs"):
                             reb.append(f"{mname_} line {st_.lineno}: `{U(st_)[:80]}`")
+                        # a write THROUGH the array (`self.walker_positions[:] = ..`, a slice, a mask) anywhere but in the one-walker
+                        # update is the same re-ordering / replacement in place
+                        b_ = el_
+                        while isinstance(b_, ast.Subscript):
+                            b_ = b_.value
+                        if isinstance(el_, ast.Subscript) and U(b_) in ("self.walker_positions", "self.walker_probs") \
+                                and "advance_walker" not in mname_:
+                            reb.append(f"{mname_} line {st_.lineno}: `{U(st_)[:80]}`")
             if isinstance(st_, ast.Expr) and isinstance(st_.value, ast.Call) and isinstance(st_.value.func, ast.Attribute) \
                     and st_.value.func.attr in ("sort", "shuffle", "resize") and U(st_.value.func.value) in ("self.walker_positions", "self.walker_probs"):
                 reb.append(f"{mname_} line {st_.lineno}: `{U(st_)[:80]}`")
@@ -157,6 +165,23 @@ def run(prog, tier):
             if not (len(pc_) == 1 and U(pc_[0].args[0]) == vals.get("W_POS")):
                 ok, why = False, (f"walker_probs[{param}] is written with `{vals.get('W_PROB')}` which is not "
                                   f"posterior(`{vals.get('W_POS')}`)")
+            else:
+                # ... of the point as it is WHEN it is stored: between the evaluation and the store the position variable is not
+                # re-bound or written into (a fold applied after the evaluation stores another point than the one evaluated)
+                pos_name = vals.get("W_POS")
+                store_lines = [e[1] for ev, s in paths for e in ev if e[0] == "W_POS"]
+                if pos_name and pos_name.isidentifier() and store_lines:
+                    for st_ in ast.walk(aw):
+                        tg_ = st_.targets if isinstance(st_, ast.Assign) else [st_.target] if isinstance(st_, ast.AugAssign) else []
+                        for t_ in tg_:
+                            for el_ in (t_.elts if isinstance(t_, (ast.Tuple, ast.List)) else [t_]):
+                                b_ = el_
+                                while isinstance(b_, ast.Subscript):
+                                    b_ = b_.value
+                                if isinstance(b_, ast.Name) and b_.id == pos_name and pdef.lineno < st_.lineno <= max(store_lines) \
+                                        and st_ is not pdef:
+                                    ok, why = False, (f"`{U(st_)[:70]}` (line {st_.lineno}) changes `{pos_name}` after its log-probability was "
+                                                      f"computed and before it is stored: the stored pair is (new point, old point's probability)")
     else:
         why = f"path {fmt(bad[0])} writes position and probability unequally"
     obs.append(struct_ob("walker-pair", qual(c, aw), ok, why, erel, aw.lineno))
